@@ -197,6 +197,7 @@ type Reporter struct {
 	distinct    map[string]struct{}
 	evals       int64
 	notes       []string
+	minV        map[string]*minVio
 }
 
 func newReporter() *Reporter {
@@ -261,7 +262,52 @@ func (r *Reporter) Violate(key string, what string, replay any) {
 	r.violations = append(r.violations, Violation{Key: key, Replay: path, What: what})
 }
 
+// ViolateMin records a violation under a cluster key and keeps the smallest
+// (by size) replay of the cluster.
+func (r *Reporter) ViolateMin(key string, size int, what string, replay func() any) {
+	r.mu.Lock()
+	defer r.mu.Unlock()
+	r.vioCount++
+	if r.minV == nil {
+		r.minV = map[string]*minVio{}
+	}
+	cur, ok := r.minV[key]
+	if ok && cur.size <= size {
+		cur.count++
+		return
+	}
+	n := 1
+	if ok {
+		n = cur.count + 1
+	}
+	r.minV[key] = &minVio{size: size, what: what, replay: replay(), count: n}
+}
+
+type minVio struct {
+	size   int
+	what   string
+	replay any
+	count  int
+}
+
+func (r *Reporter) flushMin() {
+	keys := make([]string, 0, len(r.minV))
+	for k := range r.minV {
+		keys = append(keys, k)
+	}
+	sort.Strings(keys)
+	for _, k := range keys {
+		v := r.minV[k]
+		r.vioCount -= v.count // Violate counts again
+		for i := 0; i < v.count-1; i++ {
+			r.vioCount++
+		}
+		r.Violate(hashKey(k), fmt.Sprintf("%s (cluster %s: %d failing observations)", v.what, k, v.count), v.replay)
+	}
+}
+
 func (r *Reporter) finish() {
+	r.flushMin()
 	ff := loadFindings()
 	ids := make([]string, 0, len(r.knownCounts))
 	for id := range r.knownCounts {
@@ -335,6 +381,7 @@ func (r *Reporter) addTLC(st TLCStats) {
 		cur, _ := r.Cov[k].(int64)
 		r.Cov[k] = cur + v
 	}
+	r.notes = append(r.notes, fmt.Sprintf("tlc run: %d distinct states, %d json lines, %.1fs", st.Distinct, st.Lines, st.WallS))
 	add("states", st.Distinct)
 	add("transitions", st.Generated)
 	add("tlc_json_cases", st.Lines)
